@@ -70,6 +70,8 @@ def gen(seed, rev=None, layout=None, scheme=None, nsteps=None, numrec=None, peri
     eff = sub or [1, imax - 1, 1, jmax - 1]
     rows = []
     freq = int(r.choice([1, 2])) if continuous else 1
+    if first_release * freq >= nsteps:
+        first_release = 0            # keep the first release inside the window
     rtimes = [first_release * freq] + ([int(x) * freq for x in sorted(set(r.randint(1, max(2, nsteps // freq + 1), size=r.randint(0, 3)).tolist()))] if late_release else [])
     for t in rtimes:
         for _ in range(int(r.choice([1, 2, 3]))):
